@@ -358,6 +358,11 @@ func (s *Scanner) Scan() (Token, error) {
 			literal = option.UnescapeIdentifier(s.literal.String(), ch)
 			token = IDENTIFIER
 			quoted = true
+		} else if unicode.MaxASCII < ch {
+			// The characters the grammar uses as tokens are ASCII. Any other
+			// character must not stand for itself: the token numbers
+			// generated by goyacc begin at U+E000, in the private use area.
+			token = Uncategorized
 		}
 	}
 
